@@ -1,0 +1,112 @@
+//go:build verif
+
+// Contracts for package initializers, read by /verif/qv (comment-only file).
+// C18: shape, tracking, and the exact distribution parameters handed to the random constructors; that the draws follow
+// the named law is the assumption about gonum (DESIGN.md C18).
+
+package initializers
+
+//@ func tensorInitConf
+//@   returns fresh
+//@   ensures res0 != nil && res0.Device == tensor.CPU && res0.GradTrack
+
+//@ func toValidFullConfig
+//@   returns fresh
+//@   ensures[C18] conf != nil && conf.Value == ite(iconf == nil, 0.0, iconf.Value)
+//@ func NewFull
+//@   public
+//@   returns fresh
+//@   ensures[C18] c != nil && c.value == ite(conf == nil, 0.0, conf.Value)
+//@ func Full.Init
+//@   public
+//@   returns fresh
+//@   ensures[C18,C09] iff(err == nil, dimsOK(shape)) && imp(err != nil, x == nil)
+//@   ensures[C18] imp(err == nil, x != nil && hasShape(x, shape) && forallJ(J, imp(inb(x, J), el(x, J) == c.value)) && leafCtx(x, true))
+
+//@ func toValidUniformConfig
+//@   returns fresh
+//@   ensures[C18,C09] iff(err == nil, ite(iconf == nil, true, iconf.Lower < iconf.Upper))
+//@   ensures[C18] imp(err == nil, conf != nil && conf.Lower == ite(iconf == nil, 0 - 0.05, iconf.Lower) && conf.Upper == ite(iconf == nil, 0.05, iconf.Upper))
+//@ func NewUniform
+//@   public
+//@   returns fresh
+//@   ensures[C18,C09] iff(err == nil, ite(conf == nil, true, conf.Lower < conf.Upper)) && imp(err != nil, c == nil)
+//@   ensures[C18] imp(err == nil, c != nil && c.lower < c.upper && c.lower == ite(conf == nil, 0 - 0.05, conf.Lower) && c.upper == ite(conf == nil, 0.05, conf.Upper))
+//@ func Uniform.Init
+//@   public
+//@   requires c.lower < c.upper
+//@   returns fresh
+//@   ensures[C18,C09] iff(err == nil, dimsOK(shape)) && imp(err != nil, x == nil)
+//@   ensures[C18] imp(err == nil, x != nil && hasShape(x, shape) && drawnU(x, c.lower, c.upper) && forallJ(J, imp(inb(x, J), c.lower <= el(x, J) && el(x, J) < c.upper)) && leafCtx(x, true))
+
+//@ func toValidNormalConfig
+//@   returns fresh
+//@   ensures[C18,C09] iff(err == nil, ite(iconf == nil, true, iconf.StdDev > 0))
+//@   ensures[C18] imp(err == nil, conf != nil && conf.Mean == ite(iconf == nil, 0.0, iconf.Mean) && conf.StdDev == ite(iconf == nil, 0.05, iconf.StdDev))
+//@ func NewNormal
+//@   public
+//@   returns fresh
+//@   ensures[C18,C09] iff(err == nil, ite(conf == nil, true, conf.StdDev > 0)) && imp(err != nil, c == nil)
+//@   ensures[C18] imp(err == nil, c != nil && c.stdDev > 0 && c.mean == ite(conf == nil, 0.0, conf.Mean) && c.stdDev == ite(conf == nil, 0.05, conf.StdDev))
+//@ func Normal.Init
+//@   public
+//@   requires c.stdDev > 0
+//@   returns fresh
+//@   ensures[C18,C09] iff(err == nil, dimsOK(shape)) && imp(err != nil, x == nil)
+//@   ensures[C18] imp(err == nil, x != nil && hasShape(x, shape) && drawnN(x, c.mean, c.stdDev) && leafCtx(x, true))
+
+//@ func toValidHeUniformConfig
+//@   returns fresh
+//@   ensures[C18,C09] iff(err == nil, iconf != nil && iconf.FanIn > 0) && imp(err == nil, conf != nil && conf.FanIn == iconf.FanIn)
+//@ func NewHeUniform
+//@   public
+//@   returns fresh
+//@   ensures[C18,C09] iff(err == nil, conf != nil && conf.FanIn > 0) && imp(err == nil, c != nil && c.fanIn == conf.FanIn) && imp(err != nil, c == nil)
+//@ func HeUniform.Init
+//@   public
+//@   requires c.fanIn > 0
+//@   returns fresh
+//@   ensures[C18,C09] iff(err == nil, dimsOK(shape)) && imp(err != nil, x == nil)
+//@   ensures[C18] imp(err == nil, x != nil && hasShape(x, shape) && drawnU(x, 0 - sqrt(6 / real(c.fanIn)), sqrt(6 / real(c.fanIn))) && leafCtx(x, true))
+
+//@ func toValidHeNormalConfig
+//@   returns fresh
+//@   ensures[C18,C09] iff(err == nil, iconf != nil && iconf.FanIn > 0) && imp(err == nil, conf != nil && conf.FanIn == iconf.FanIn)
+//@ func NewHeNormal
+//@   public
+//@   returns fresh
+//@   ensures[C18,C09] iff(err == nil, conf != nil && conf.FanIn > 0) && imp(err == nil, c != nil && c.fanIn == conf.FanIn) && imp(err != nil, c == nil)
+//@ func HeNormal.Init
+//@   public
+//@   requires c.fanIn > 0
+//@   returns fresh
+//@   ensures[C18,C09] iff(err == nil, dimsOK(shape)) && imp(err != nil, x == nil)
+//@   ensures[C18] imp(err == nil, x != nil && hasShape(x, shape) && drawnN(x, 0, sqrt(2 / real(c.fanIn))) && leafCtx(x, true))
+
+//@ func toValidXavierUniformConfig
+//@   returns fresh
+//@   ensures[C18,C09] iff(err == nil, iconf != nil && iconf.FanIn > 0 && iconf.FanOut > 0) && imp(err == nil, conf != nil && conf.FanIn == iconf.FanIn && conf.FanOut == iconf.FanOut)
+//@ func NewXavierUniform
+//@   public
+//@   returns fresh
+//@   ensures[C18,C09] iff(err == nil, conf != nil && conf.FanIn > 0 && conf.FanOut > 0) && imp(err == nil, c != nil && c.fanIn == conf.FanIn && c.fanOut == conf.FanOut) && imp(err != nil, c == nil)
+//@ func XavierUniform.Init
+//@   public
+//@   requires c.fanIn > 0 && c.fanOut > 0
+//@   returns fresh
+//@   ensures[C18,C09] iff(err == nil, dimsOK(shape)) && imp(err != nil, x == nil)
+//@   ensures[C18] imp(err == nil, x != nil && hasShape(x, shape) && drawnU(x, 0 - sqrt(6 / real(c.fanIn + c.fanOut)), sqrt(6 / real(c.fanIn + c.fanOut))) && leafCtx(x, true))
+
+//@ func toValidXavierNormalConfig
+//@   returns fresh
+//@   ensures[C18,C09] iff(err == nil, iconf != nil && iconf.FanIn > 0 && iconf.FanOut > 0) && imp(err == nil, conf != nil && conf.FanIn == iconf.FanIn && conf.FanOut == iconf.FanOut)
+//@ func NewXavierNormal
+//@   public
+//@   returns fresh
+//@   ensures[C18,C09] iff(err == nil, conf != nil && conf.FanIn > 0 && conf.FanOut > 0) && imp(err == nil, c != nil && c.fanIn == conf.FanIn && c.fanOut == conf.FanOut) && imp(err != nil, c == nil)
+//@ func XavierNormal.Init
+//@   public
+//@   requires c.fanIn > 0 && c.fanOut > 0
+//@   returns fresh
+//@   ensures[C18,C09] iff(err == nil, dimsOK(shape)) && imp(err != nil, x == nil)
+//@   ensures[C18] imp(err == nil, x != nil && hasShape(x, shape) && drawnN(x, 0, sqrt(2 / real(c.fanIn + c.fanOut))) && leafCtx(x, true))
